@@ -65,12 +65,14 @@ pub fn sub_imm(span: &mut SpanBuilder, imm: Felt) -> Result<Option<CodeBlock>, A
 
 /// Appends a sequence of operations to multiply the value at the top of the stack by an immediate
 /// value. Specifically, the sequences are:
-/// - if imm = 0: DROP PAD
+/// - if imm = 0: PAD MUL
 /// - else if imm = 1: NOOP
 /// - otherwise: PUSH(imm) MUL
 pub fn mul_imm(span: &mut SpanBuilder, imm: Felt) -> Result<Option<CodeBlock>, AssemblyError> {
     if imm == ZERO {
-        span.add_ops([Drop, Pad])
+        // not DROP PAD: dropping an item at the minimum stack depth shifts a zero in, so the
+        // following PAD would leave the stack one item deeper than it was
+        span.add_ops([Pad, Mul])
     } else if imm == ONE {
         span.add_op(Noop)
     } else {
@@ -203,8 +205,9 @@ pub fn exp_imm(span: &mut SpanBuilder, pow: Felt) -> Result<Option<CodeBlock>, A
 fn perform_exp_for_small_power(span: &mut SpanBuilder, pow: u64) {
     match pow {
         0 => {
-            span.push_op(Drop);
+            // b * 0 + 1; not DROP PAD INCR, which grows the stack when it is at its minimum depth
             span.push_op(Pad);
+            span.push_op(Mul);
             span.push_op(Incr);
         }
         1 => span.push_op(Noop), // TODO: show warning?
